@@ -74,6 +74,17 @@ func findSel(name string) harness.SelSpec {
 
 // c02Check compares one exchange with the reference; returns signature, what.
 func c02Check(d *harness.DAG, sel harness.SelSpec, split harness.Split) (string, string, string) {
+	sig, what, class := c02CheckInner(d, sel, split)
+	if sig != "" && sel.Name == "fields-e1-e0" && !strings.HasPrefix(sig, "responder-lacks-root") && sig != "panic" {
+		// The selector lists its fields in non-canonical order (e1 before e0). dag-cbor sorts map keys on the wire,
+		// so the responder traverses e0 first while the requestor's in-memory selector says e1 first: whenever the
+		// responder is involved the two traversals disagree (incorrect-response error or misplaced data). Known finding.
+		sig = "selector-field-order-changed-by-wire-encoding/requestor-and-responder-traverse-in-different-orders"
+	}
+	return sig, what, class
+}
+
+func c02CheckInner(d *harness.DAG, sel harness.SelSpec, split harness.Split) (string, string, string) {
 	qs, rs := d.Stores(split)
 	ref := harness.Reference(d.Root, sel.Node, harness.RefOpts{Local: qs, Remote: rs, RemoteNeedsPath: true})
 	obs, _ := runExchange(vsched.Config{Fast: true}, d, sel, split, nil, nil)
